@@ -390,6 +390,7 @@ func c20Delay(c *Check, P string) {
 	forKey, _ := c.P.ExportedConstString(rel, "DelayedForKey")
 	untilKey, _ := c.P.ExportedConstString(rel, "DelayedUntilKey")
 	var metaPresent, metaAbsent []Edge
+	testsFor := false
 	for _, t := range Tests(A) {
 		if t.Op != token.EQL || t.Y == nil {
 			continue
@@ -406,6 +407,9 @@ func c20Delay(c *Check, P string) {
 				metaAbsent = append(metaAbsent, t.True)
 				metaPresent = append(metaPresent, t.False)
 			}
+			if k == forKey {
+				testsFor = true
+			}
 		}
 	}
 	// ctx value present
@@ -421,6 +425,7 @@ func c20Delay(c *Check, P string) {
 	// generator configured
 	genAbsent, genPresent := NilEdges(A, func(v ssa.Value) bool { return AllOrigins(v, exportedFieldLoad("DefaultDelayGenerator")) })
 	allowTrue, allowFalse := BoolEdges(A, exportedFieldLoad("AllowNoDelay"))
+	c.Report(testsFor, P+".O2", "DELAY-PRECEDENCE/key", A, A.Pos(), "metadata test", "'already delayed' is read from the delayed-for key — the one DelayOnError and the other writers of the library go by (a message that carries only it must keep its delay)")
 	c.Floor(P+".O2", "tests: metadata present, context delay present, generator configured, AllowNoDelay", b2i(len(metaAbsent) > 0)+b2i(len(ctxPresent) > 0)+b2i(len(genPresent) > 0)+b2i(len(allowTrue) > 0), 4)
 	var gens []ssa.CallInstruction
 	for _, cl := range CallsIn(A) {
@@ -523,6 +528,10 @@ func c20Delay(c *Check, P string) {
 			} else {
 				sub, isSub := firstOrigin(dVal).(*ssa.Call)
 				ok = FromParam(prm)(tVal) && isSub && CalleeName(sub) == "(time.Time).Sub" && FromParam(prm)(sub.Call.Args[0]) && isNowUTC(sub.Call.Args[1])
+				// time.Until(t) is t.Sub(time.Now())
+				if !ok && FromParam(prm)(tVal) && isSub && CalleeName(sub) == "time.Until" && FromParam(prm)(sub.Call.Args[0]) {
+					ok = true
+				}
 			}
 		}
 		c.Report(ok, P+".O2", "DELAY-FOR-UNTIL-AGREE", fn, fn.Pos(), "delay."+name, "delayed-for and delayed-until describe the same instant (until = now + for)")
